@@ -682,4 +682,63 @@ theorem parFinish_choice (env : Env) (i : Nat) (s : St) (idxs : List Nat) (jobs 
   unfold parFinish
   simp [hno, hch, pickBestM_fn]
 
+/-! ## counting: a scripted loop around a leaf -/
+/-- the state after `n` executions of leaf `i` -/
+def iterLeaf (env : Env) (i : Nat) : Nat → St → St
+  | 0, s => s
+  | n + 1, s => iterLeaf env i n (env.leaf i s).1
+
+/-- `n` executions of leaf `i`, each with the state it saw -/
+def leafTrace (env : Env) (i : Nat) : Nat → St → List Ev
+  | 0, _ => []
+  | n + 1, s => ⟨i, s, false⟩ :: leafTrace env i n (env.leaf i s).1
+
+theorem leafTrace_length (env : Env) (i : Nat) : ∀ n s, (leafTrace env i n s).length = n := by
+  intro n
+  induction n with
+  | zero => intro s; rfl
+  | succ n ih => intro s; simp [leafTrace, ih]
+
+/-- a while loop whose predicate is scripted `true^n false` runs its leaf body exactly `n` times, each
+time on the state the previous execution left, and consumes exactly `n + 1` outcomes -/
+theorem while_script_leaf (env : Env) (i : Nat) (hok : ∀ s, (env.leaf i s).2 = none) :
+    ∀ (n : Nat) (w : World) (s : St) (rest : List Bool),
+      Runs env (.while .script (.leaf i))
+        { w with script := List.replicate n true ++ false :: rest } s
+        ⟨leafTrace env i n s, iterLeaf env i n s, { w with script := rest }, .ok⟩ := by
+  intro n
+  induction n with
+  | zero =>
+    intro w s rest
+    rw [runs_while]
+    simp [evalPred, leafTrace, iterLeaf, Res.skip]
+  | succ n ih =>
+    intro w s rest
+    rw [runs_while]
+    simp only [evalPred, List.replicate_succ, List.cons_append, if_true]
+    refine ⟨leafM env i { w with script := List.replicate n true ++ false :: rest } s,
+      (runs_leaf _ _ _ _ _).mpr rfl, ?_⟩
+    unfold Then
+    have hout : (leafM env i { w with script := List.replicate n true ++ false :: rest } s).out = .ok := by
+      simp [leafM, hok]
+    simp only [hout]
+    refine ⟨_, ih w (env.leaf i s).1 rest, ?_⟩
+    simp [leafM, leafTrace, iterLeaf]
+
+/-- a do-while loop runs the body once more than its scripted predicate says `true` -/
+theorem doWhile_script_leaf (env : Env) (i : Nat) (hok : ∀ s, (env.leaf i s).2 = none)
+    (n : Nat) (w : World) (s : St) (rest : List Bool) :
+    Runs env (.doWhile .script (.leaf i))
+      { w with script := List.replicate n true ++ false :: rest } s
+      ⟨leafTrace env i (n + 1) s, iterLeaf env i (n + 1) s, { w with script := rest }, .ok⟩ := by
+  rw [runs_doWhile]
+  refine ⟨leafM env i { w with script := List.replicate n true ++ false :: rest } s,
+    (runs_leaf _ _ _ _ _).mpr rfl, ?_⟩
+  unfold Then
+  have hout : (leafM env i { w with script := List.replicate n true ++ false :: rest } s).out = .ok := by
+    simp [leafM, hok]
+  simp only [hout]
+  refine ⟨_, while_script_leaf env i hok n w (env.leaf i s).1 rest, ?_⟩
+  simp [leafM, leafTrace, iterLeaf]
+
 end BqVerif.Control
